@@ -377,6 +377,19 @@ fn weight_literals() -> Vec<String> {
             }
         }
     }
+    // every other spelling a float parser may accept, and near misses: signs, exponents, infinities, NaN, bare dots,
+    // digit separators, hexadecimal, digits of other scripts, blanks
+    for z in [
+        "-0", "-0.0", "-0.5", "-1", "-1.0", "-0.25", "-2", "-1e3", "-1e-3", "-.5", "-5e-1", "+0", "+0.5", "+1", "+1.0", "+.5", "+1e0",
+        "1e0", "1E0", "1e-1", "5e-1", "0.5e0", "0.5e1", "0.05e1", "5e-2", "1e1", "1e-46", "1e-400", "1e400", "0e0", "0e99", "1e+0", "1.0e0", "9e-1",
+        "inf", "-inf", "+inf", "Inf", "INF", "infinity", "-infinity", "Infinity", "nan", "NaN", "-nan", "-NaN", "+NaN", "NAN",
+        ".5", ".0", ".", "0.", "1.", "-.", "00.5", "01", "001.0", "0..5", "0.5.", "0.5.5", "1..0",
+        "0_5", "0.5_0", "1_0", "0x1", "0x0.8", "0x1p-1", "0b1", "1f32", "0.5f32", "1_f32", "0.5f", "1d",
+        "\u{ff11}", "\u{ff10}.\u{ff15}", "\u{0661}", "0.\u{0665}", "\u{2212}0.5", "0,5", " 0.5", "0.5 ", "0 .5", "0. 5", "- 0.5", "\t0.5",
+        "1.5", "2", "2.0", "10", "1.0000001", "1.00000000000000000000001", "0.99999997", "0.999999999999999999999", "1.0e-0",
+    ] {
+        v.push(z.to_string());
+    }
     v
 }
 
